@@ -67,6 +67,11 @@ Example C19_example :
   /\ pool_compile_accepts 3 2 1 [4; 4]%Z = true.
 Proof. repeat split; vm_compute; reflexivity. Qed.
 
+(* the guard `if not 0 < v < math.inf: raise` (every temperature, the thermometer slope, GroupSum's tau - each pinned in Gen/Guards.v)
+   accepts exactly the positive finite floats: not 0.0, -0.0, negative numbers, NaN, inf or -inf *)
+Theorem C19_positive_finite_guard : forall v, positive_finite_guard_accepts v = positive_finite_domain v.
+Proof. exact positive_finite_guard_decides. Qed.
+
 Eval compute in "PA:C19_guards_present"%string. Print Assumptions C19_guards_present.
 Eval compute in "PA:C19_dense_ctor_rejects"%string. Print Assumptions C19_dense_ctor_rejects.
 Eval compute in "PA:C19_dense_ctor_accepts"%string. Print Assumptions C19_dense_ctor_accepts.
@@ -80,3 +85,4 @@ Eval compute in "PA:C19_groupsum_ctor_accepts"%string. Print Assumptions C19_gro
 Eval compute in "PA:C19_pool_compile_decides"%string. Print Assumptions C19_pool_compile_decides.
 Eval compute in "PA:C19_pool_accepted_wf"%string. Print Assumptions C19_pool_accepted_wf.
 Eval compute in "PA:C19_compiled_forward_decides"%string. Print Assumptions C19_compiled_forward_decides.
+Eval compute in "PA:C19_positive_finite_guard"%string. Print Assumptions C19_positive_finite_guard.
